@@ -369,7 +369,9 @@ func corpus() []Job {
 	}
 	all := corpusBase(solo)
 	// the payload filter and every other sequential behaviour again on states that have a context
-	return append(all, withCtx(all[0]), withCtx(all[1]), withCtx(all[3]))
+	all = append(all, withCtx(all[0]), withCtx(all[1]), withCtx(all[3]))
+	// receive / select at every register height around the limit, after errors raised on a full registry
+	return append(all, edgeCorpus()...)
 }
 
 func corpusBase(solo func(caps []int, script string) Job) []Job {
@@ -494,6 +496,13 @@ func genJobs(r *lib.Rand, tier string) []Job {
 			l.RegSize, l.RegMax, l.CallStack = 5120, 0, r.Range(24, 80)
 		}
 		js = append(js, Job{Kind: "limit", Limit: l})
+	}
+	nedge := 6
+	if tier == "thorough" {
+		nedge = 80
+	}
+	for i := 0; i < nedge; i++ {
+		js = append(js, genEdge(r.Fork()))
 	}
 	nlib := 3
 	if tier == "thorough" {
